@@ -135,10 +135,16 @@ func (cs *gcpClientStream) signalReady() {
 func (cs *gcpClientStream) RecvMsg(m interface{}) error {
 	// If RecvMsg is called before SendMsg, it should wait until cs.ClientStream
 	// is initialized or the initialization failed, or until the call's context ends.
+	// Once the stream exists (or its creation has failed) the context is not consulted any more:
+	// with both channels ready select would pick one at random and bypass the stream.
 	select {
 	case <-cs.ready:
-	case <-cs.ctx.Done():
-		return cs.ctx.Err()
+	default:
+		select {
+		case <-cs.ready:
+		case <-cs.ctx.Done():
+			return cs.ctx.Err()
+		}
 	}
 	cs.Lock()
 	err, realCS := cs.initStreamErr, cs.ClientStream
@@ -166,8 +172,12 @@ func (cs *gcpClientStream) realStream() grpc.ClientStream {
 func (cs *gcpClientStream) Header() (metadata.MD, error) {
 	select {
 	case <-cs.ready:
-	case <-cs.ctx.Done():
-		return nil, cs.ctx.Err()
+	default:
+		select {
+		case <-cs.ready:
+		case <-cs.ctx.Done():
+			return nil, cs.ctx.Err()
+		}
 	}
 	cs.Lock()
 	err, realCS := cs.initStreamErr, cs.ClientStream
